@@ -84,8 +84,9 @@ def render(d):
         fl.insert(d.get("clpos", len(fl)) % (len(fl) + 1), (b"Content-Length", b"%d" % d.get("clen", len(body))))
     elif fr == "chunked":
         fl.insert(d.get("clpos", len(fl)) % (len(fl) + 1), (b"Transfer-Encoding", b"chunked"))
-        if d.get("trailers"):
-            fl.append((b"Trailer", b", ".join(k for k, _ in d["trailers"])))
+        ann = d.get("announce")          # None: as sent; True: announce although none is sent; False: never
+        if (d.get("trailers") and ann is not False) or ann:
+            fl.append((b"Trailer", b", ".join(k for k, _ in d["trailers"]) if d.get("trailers") else b"X-T"))
     for k, v in fl:
         out += k + b": " + v + eol
     out += eol
@@ -159,10 +160,13 @@ def rand_resp(rng, be, valid=True):
         if rng.random() < 0.3:
             d["trailers"] = [(rng.choice([b"X-T", b"X-Sum", b"ETag"]), rng.choice([b"v", b"\"t\"", b"a b"]))
                              for _ in range(rng.randint(1, 2))]
+        if rng.random() < 0.15:
+            d["announce"] = rng.random() < 0.7
     if fr == "cl" and not valid and rng.random() < 0.5:
         d["clen"] = max(0, n + rng.choice([-2, -1, 1, 3]))
     if rng.random() < 0.15:
-        d["interim"] = [(rng.choice([100, 102, 103, 103, 199]), rand_fields(rng, rng.randint(0, 2)))
+        d["interim"] = [(rng.choice([100, 102, 103, 103, 199]),
+                         rand_fields(rng, rng.randint(0, 2)) + ([(b"Content-Length", b"0")] if rng.random() < 0.2 else []))
                         for _ in range(rng.randint(1, 2))]
     if rng.random() < 0.12:
         d["eol"] = b"\n"
@@ -322,6 +326,8 @@ def ref_dechunk(data):
         if j < 0:
             return ("more", body) if len(data) - i < 1024 else ("bad", body)
         ln = data[i:j + 1]
+        if len(ln) > 1024:
+            return ("lenient", body)          # implementation limit of lighttpd (any split: rejected)
         if not ln.endswith(CRLF):
             return ("bad", body)
         k = 0
@@ -457,7 +463,8 @@ def ref_backend(data, be):
         if any(n.startswith(b"x-lighttpd-") for n in names):
             return dict(kind="lenient", why="x-lighttpd")
         if 100 <= status < 200 and status != 101:
-            if b"content-length" in names or b"transfer-encoding" in names:
+            # ("Content-Length: 0" in an interim response is common and harmless: it says nothing about the final one)
+            if b"transfer-encoding" in names or any(v.strip() != b"0" for k, v in fl if k.lower() == b"content-length"):
                 return dict(kind="lenient", why="framing in 1xx")
             msgs.append((status, [(k, v) for k, v in fl if k.lower() != b"status"]))
             rest = after
@@ -468,7 +475,7 @@ def ref_backend(data, be):
         te = [v for k, v in fl if k.lower() == b"transfer-encoding"]
         if len(cl) > 1 or len(te) > 1 or (cl and te):
             return dict(kind="lenient", why="ambiguous framing")
-        r = dict(kind="msg", interims=msgs, status=status, trailers=[], excess=0,
+        r = dict(kind="msg", interims=msgs, status=status, trailers=[], excess=0, afterlen=len(after),
                  fields=[(k, v) for k, v in fl if k.lower() not in HOP], badframing=False)
         if te:
             if te[0].lower() != b"chunked":
@@ -642,6 +649,8 @@ M_BROKEN_H1S = ("backend response that is truncated / has malformed chunked fram
                 "sent (chunked message terminated with a last-chunk / Content-Length fulfilled)")
 M_BROKEN_H2 = ("backend response that is truncated / malformed / cut off by a backend failure ends the HTTP/2 "
                "stream with END_STREAM (complete) instead of RST_STREAM")
+M_BROKEN_H10 = ("HTTP/1.0 client: a backend response cut off after the response head was sent ends like a complete "
+                "close-delimited message (orderly close; the client cannot tell it from the end of the body)")
 M_RELAY = "complete well-formed backend response is not relayed faithfully: "
 
 
@@ -672,7 +681,7 @@ def oracle(line, out):
         # RFC 9112 6.3: a response to HEAD and a 304 end with the head, whatever Content-Length / Transfer-Encoding
         # announce: the backend message is complete, however the stream ends afterwards
         ref = dict(ref, framing="none", complete=True, badframing=False, trailers=[],
-                   excess=len(ref.get("body") or b"") + ref.get("excess", 0), body=b"")
+                   excess=ref["afterlen"], body=b"")      # (octets behind the head: sloppy backend, lenient)
     good = ref["kind"] == "msg" and not ref["badframing"]
     # ---- what the client saw
     if ver == 20:
@@ -743,6 +752,8 @@ def oracle(line, out):
                 return M_BROKEN_H2
             computed = cv.get("framing") == "cl" and not (ref["kind"] == "msg" and ref.get("framing") == "cl")
             return M_BROKEN_H1 if computed else M_BROKEN_H1S
+        if ver == 10 and cend == "close" and cv.get("framing") == "close" and cv["status"] < 400 and not nobody:
+            return M_BROKEN_H10               # (known finding: nothing short of a TCP reset could show it)
         return None
     if not good or ref["excess"]:
         return None                           # lenient territory: only the generic checks above
@@ -864,6 +875,7 @@ SHORT_PROXY = [
     b"HTTP/1.1 103 Early Hints\r\nLink: </a>\r\n\r\nHTTP/1.1 200 OK\r\nContent-Length: 1\r\n\r\nx",
     b"HTTP/1.0 404 Not Found\r\nX-A: b\r\n\r\nnope",
     b"HTTP/1.1 200 OK\nContent-Length: 2\n\nok",
+    b"HTTP/1.1 200 OK\r\nTransfer-Encoding: chunked\r\nTrailer: X-T\r\n\r\n1\r\na\r\n0\r\n\r\n",      # (announced, none sent)
 ]
 SHORT_CGI = [
     b"Status: 201\r\nContent-Length: 2\r\n\r\nok",
@@ -939,9 +951,17 @@ def gen_dechunk(ctx):
     for hx_ in (b"7" + b"f" * 14, b"8" + b"0" * 14, b"f" * 15, b"f" * 16, b"1" + b"0" * 15, b"7" + b"f" * 15):
         lines.append("dechunk 8192 0 %s" % C.hx(hx_ + b"\r\n"))
         lines.append("dechunk 8192 0 %s %s" % (C.hx(hx_[:5]), C.hx(hx_[5:] + b"\r\n")))
-    for ln in (900, 1015, 1018):
-        lines.append("dechunk 8192 0 %s" % C.hx(b"1;" + b"x" * ln + b"\r\na\r\n0\r\n\r\n"))
-        lines.append("dechunk 8192 0 %s %s" % (C.hx(b"1;" + b"x" * ln), C.hx(b"\r\na\r\n0\r\n\r\n")))
+    # chunk-size lines around the 1024-octet limit (line incl. CRLF = ln + 4): the same verdict for every split
+    for ln in (900, 1015, 1018, 1019, 1020, 1021, 1022, 1100, 3000):
+        d = b"1;" + b"x" * ln + b"\r\na\r\n0\r\n\r\n"
+        for cuts in ((), (5,), (ln + 2,), (ln + 3,), (ln + 4,), (1, ln + 3), (1023,), (1024,), (1025,)):
+            cuts = [c for c in cuts if 0 < c < len(d)]
+            segs = [d[a:b] for a, b in zip([0] + list(cuts), list(cuts) + [len(d)])]
+            lines.append("dechunk 8192 0 %s" % " ".join(C.hx(x) for x in segs))
+        d = b"2\r\nab\r\n0;" + b"y" * ln + b"\r\n\r\n"          # ... and a long last-chunk line, not first in its read
+        for cuts in ((), (7,), (9,), (len(d) - 2,)):
+            segs = [d[a:b] for a, b in zip([0] + list(cuts), list(cuts) + [len(d)])]
+            lines.append("dechunk 8192 %d %s" % (rng.randint(0, 1), " ".join(C.hx(x) for x in segs)))
     return lines
 
 
@@ -990,6 +1010,29 @@ def gen_big(ctx):
             + fcgi_rec(6, b"") + fcgi_rec(3, b"\0" * 8)
         lines.append(line("fcgi", 11, 0, "G", "eof", [recs[i:i + 3000] for i in range(0, len(recs), 3000)]))
         if n >= 70000:
+            # FastCGI records whose contentLength + paddingLength exceeds 65535
+            for clen, pad in ((65535, 1), (65528, 8), (65300, 255), (65535, 255)):
+                if clen <= n:
+                    recs = fcgi_rec(6, b"Status: 200\r\n\r\n") + fcgi_rec(6, body[:clen], pad) + fcgi_rec(6, body[clen:clen + 10], 3) \
+                        + fcgi_rec(6, b"") + fcgi_rec(3, b"\0" * 8)
+                    for stream in (0, 1):
+                        lines.append(line("fcgi", 11, stream, "G", "eof", [recs[i:i + 3000] for i in range(0, len(recs), 3000)]))
+            # Content-Length body, > 64 KiB queued (temp file), then small reads (accumulated) alternating with reads of
+            # >= 8 KiB (spliced into the temp file): the octets must stay in order
+            nn = n + 80000
+            bb = (body * (nn // len(body) + 1))[:nn]
+            for be, head in (("proxy", b"HTTP/1.1 200 OK\r\nContent-Length: %d\r\n\r\n" % nn), ("scgi", b"Content-Length: %d\r\n\r\n" % nn)):
+                data = head + bb
+                pre = 66000 + len(head)
+                segs = [data[i:i + 3000] for i in range(0, pre, 3000)]
+                segs[-1] = segs[-1][:pre - 3000 * (len(segs) - 1)]
+                rest = data[pre:]
+                pat, i = [700, 9000, 300, 12000, 1, 8192, 2500, 40000], 0
+                while rest:
+                    k = pat[i % len(pat)]; i += 1
+                    segs.append(rest[:k]); rest = rest[k:]
+                for stream in (0, 1):
+                    lines.append(line(be, 11, stream, "G", "eof", segs))
             # Content-Length body that spills into a temp file and then keeps arriving in small reads
             # (lighttpd accumulates those before appending to the temp file: the remaining-length counter
             # must come out the same), buffered and streaming
@@ -1014,6 +1057,21 @@ def gen_special(ctx):
                 lines.append(line(be, ver, ctx.rng.choice([0, 1, 2]), "G", "eof", [data]))
         data = b"Status: 200\r\nx-lighttpd-kbytes-per-second: " + v + b"\r\n\r\nok"
         lines.append(line("fcgi", 11, 1, "G", "eof", [fcgi_rec(6, data) + fcgi_rec(6, b"") + fcgi_rec(3, b"\0" * 8)]))
+    # framing state must not leak from an interim response into the final one
+    for icl in (b"Content-Length: 0\r\n", b"Content-Length: 0\r\nLink: </a>\r\n", b""):
+        for fin in (b"\r\nhello", b"Content-Length: 5\r\n\r\nhello", b"Transfer-Encoding: chunked\r\n\r\n5\r\nhello\r\n0\r\n\r\n"):
+            for be in ("proxy", "scgi", "fcgi"):
+                if be == "proxy":
+                    data = b"HTTP/1.1 103 Early Hints\r\n" + icl + b"\r\nHTTP/1.1 200 OK\r\nX-A: b\r\n" + fin
+                else:
+                    data = b"Status: 103\r\n" + icl + b"\r\nStatus: 200\r\nX-A: b\r\n" + fin
+                for ver in (11, 10, 20):
+                    for stream in (0, 1):
+                        i = data.find(b"\r\n\r\n") + 4
+                        for segs in ([data], [data[:i], data[i:]]):
+                            if be == "fcgi":
+                                segs = [fcgi_rec(6, x) for x in segs] + [fcgi_rec(6, b"") + fcgi_rec(3, b"\0" * 8)]
+                            lines.append(line(be, ver, stream, "G", "eof", segs))
     return lines
 
 
@@ -1417,6 +1475,22 @@ def gen_e2e(ctx):
                             if done:
                                 segs.append(fcgi_rec(6, b"") + fcgi_rec(3, b"\0" * 8))
                         cases.append(line(be, ver, stream, "G", end, segs))
+    # responses that end with their head (answers to HEAD, 304, 204), with and without framing fields
+    for be in ("proxy", "scgi", "fcgi"):
+        for meth, status in (("H", 200), ("G", 304), ("H", 304), ("G", 204)):
+            for fr in (b"Content-Length: 5\r\n", b"Transfer-Encoding: chunked\r\n", b""):
+                if (status == 204 and fr) or (ctx.quick and fr.startswith(b"T") and be != "proxy"):
+                    continue
+                head = (b"HTTP/1.1 %d X\r\n" if be == "proxy" else b"Status: %d\r\n") % status + b"ETag: \"e\"\r\n" + fr + CRLF
+                for end in ("eof", "rst"):
+                    for ver in (11, 10, 20):
+                        for stream in (0, 1):
+                            if ctx.quick and rng.random() < 0.5:
+                                continue
+                            segs = [head]
+                            if be == "fcgi":
+                                segs = [fcgi_rec(6, head)] + ([fcgi_rec(6, b"") + fcgi_rec(3, b"\0" * 8)] if end == "eof" or rng.random() < 0.5 else [])
+                            cases.append(line(be, ver, stream, meth, end, segs))
     n = 150 if ctx.quick else 2500
     while n > 0:
         be = rng.choice(["proxy", "proxy", "scgi", "fcgi"])
@@ -1514,6 +1588,69 @@ def e2e_servers(bd, backend):
     return srvs
 
 
+E2E_CGI_CONF = """
+server.stream-response-body = 1
+server.range-requests = "disable"
+$HTTP["url"] =~ "^/b/" { server.stream-response-body = 0 }
+cgi.assign = (".sh" => "/bin/sh")
+cgi.limits = ("read-timeout" => 1)
+"""
+M_CGI_TIMEOUT = ("CGI killed by cgi.limits read-timeout after its response had started: the cut-off response is "
+                 "presented as a complete successful response")
+
+
+def e2e_cgi_timeout(bd):
+    """real mod_cgi (its own event glue is not in the harness): a CGI that stalls after the head and part of an
+    EOF-delimited body is killed by the read timeout; a CGI that finishes is relayed.  Returns
+    [(case, observation, verdict|None)]."""
+    from concurrent.futures import ThreadPoolExecutor
+    from .. import e2e
+    srv = e2e.Server(bd, E2E_CGI_CONF, modules=("mod_cgi",))
+    for d in ("s", "b"):
+        os.makedirs(os.path.join(srv.docroot, d), exist_ok=True)
+        with open(os.path.join(srv.docroot, d, "stall.sh"), "w") as f:
+            f.write('printf "Content-Type: text/plain\\r\\n\\r\\nhello"\nsleep 30\n')
+        with open(os.path.join(srv.docroot, d, "ok.sh"), "w") as f:
+            f.write('printf "Content-Type: text/plain\\r\\n\\r\\nhello"\n')
+    never = threading.Event()
+    never.set()
+
+    def one(case):
+        path, ver = case
+        try:
+            if ver == 20:
+                return e2e_h2(srv.port, path, False, never, 4.0 if "stall" in path else 1.0)[0]
+            return e2e_h1(srv.port, path, ver, False, never, 4.0 if "stall" in path else 1.0)[0]
+        except OSError as ex:
+            return "end=clienterror:%s" % type(ex).__name__
+    cases = [("/s/stall.sh", 11), ("/s/stall.sh", 20), ("/b/stall.sh", 11), ("/b/stall.sh", 20),
+             ("/s/ok.sh", 11), ("/s/ok.sh", 20), ("/b/ok.sh", 11)]
+    res = []
+    try:
+        srv.start()
+        with ThreadPoolExecutor(len(cases)) as ex:
+            outs = list(ex.map(one, cases))
+    except RuntimeError as ex:
+        return [(("start", 0), str(ex)[-500:], None)]
+    finally:
+        srv.stop()
+    for (path, ver), out in zip(cases, outs):
+        v = view(ver, False, out)
+        verdict = None
+        if "bad" in v:
+            verdict = M_SYNTAX + v["bad"]
+        elif "stall" in path:
+            if v["status"] is not None and v["status"] < 400 and v["complete"] is True and not v["rst"]:
+                verdict = M_CGI_TIMEOUT
+        elif not (v["status"] == 200 and v["body"] == b"hello" and (v["complete"] is True) and not v["rst"]):
+            verdict = M_RELAY + "complete CGI response (mod_cgi)"
+        res.append(((path, ver), out, verdict))
+    rep = srv.sanitizer_report()
+    if rep:
+        res.append((("sanitizer", 0), rep[-3000:], "lighttpd crashed / sanitizer report in the mod_cgi timeout scenario"))
+    return res
+
+
 def run_e2e(ctx):
     """the same property oracle and the same model, against the real lighttpd (mod_proxy, mod_scgi, mod_fastcgi;
     h1.c and h2.c; real sockets on both sides)"""
@@ -1539,8 +1676,10 @@ def run_e2e(ctx):
     ports = [s.port for s in srvs]
     gap = 0.06
     try:
-        with ThreadPoolExecutor(16) as ex:
+        with ThreadPoolExecutor(17) as ex:
+            cgi_f = ex.submit(e2e_cgi_timeout, bd)
             obs = list(ex.map(lambda kl: e2e_one(ports, backend, kl[0], kl[1], gap), enumerate(cases)))
+            cgi_res = cgi_f.result()
         # anything suspicious is repeated alone with long pauses: only what persists is reported
         # (the read boundaries / the order of data and FIN seen by lighttpd depend on scheduling)
         nret = 0
@@ -1549,8 +1688,8 @@ def run_e2e(ctx):
             v, d = e2e_judge(l, obs[k][0], obs[k][1], exp[k])
             tries = 0
             sig0 = _re.sub(r"[0-9]+|b'[^']*'", "N", v or d or "")[:70]
-            if (v or d) and confirmed[sig0] >= 3:
-                continue                 # (this kind of failure has been confirmed on three inputs already)
+            if (v or d) and (confirmed[sig0] >= 3 or v == M_BROKEN_H10):
+                continue                 # (confirmed on three inputs already / independent of timing)
             while (v or d) and tries < 2 and all(s.alive() for s in srvs):
                 tries += 1
                 nret += 1
@@ -1572,6 +1711,16 @@ def run_e2e(ctx):
                            "stderr": (rep or s.logs())[-4000:]}, found=False)
             break
     ndis = nor = 0
+    for case, out, verdict in cgi_res:
+        ctx.evaluations += 1
+        ctx.keys["e2e:mod_cgi:%s:%s:%s" % (case[0], case[1], "bad" if verdict else "ok")] += 1
+        if verdict:
+            nor += 1
+            ctx.violation("oracle:e2e-beresp:" + _re.sub(r"[0-9]+", "N", verdict)[:70], verdict,
+                          {"property": ctx.pid, "kind": "property-oracle", "correspondence": "e2e-beresp",
+                           "input": "mod_cgi %s ver=%s (cgi.limits read-timeout 1; stall.sh prints the head and "
+                                    "'hello', then sleeps; ok.sh prints the same and exits)" % case,
+                           "scenario": "cgi-timeout", "impl_obs": out[:1500], "oracle_verdict": verdict}, found=True)
     order = sorted(range(len(cases)), key=lambda k: len(cases[k]))
     for k in order:
         l = cases[k]
@@ -1608,6 +1757,14 @@ def replay_e2e(ctx, rep):
     if bd is None:
         print("server does not build:", err[-2000:])
         return 1
+    if rep.get("scenario") == "cgi-timeout":
+        rc = 0
+        for case, out, verdict in e2e_cgi_timeout(bd):
+            print(case, out[:600], "|", verdict)
+            rc |= 1 if verdict else 0
+        if rc:
+            print("VIOLATION property=%s replay=(replayed)" % ctx.pid)
+        return rc
     l = rep["input"]
     exp = e2e_expect([l])[0]
     backend = ScriptedBackend()
@@ -1635,6 +1792,49 @@ def replay_e2e(ctx, rep):
 
 
 
+M_SEGM = "the outcome depends on how the backend stream is cut into reads (every split must give the same): "
+
+
+def segmentation_oracle(ctx, name, seen):
+    """`seen`: line -> implementation output of one stream.  The same backend octets, cut into reads in
+    different ways, must give the client the same response (the decoder alone: the same verdict)."""
+    groups = collections.defaultdict(list)
+    vcache = {}
+    for l, out in seen.items():
+        t = l.split(" ")
+        if out == "<crash>":
+            continue
+        if t[0] == "dechunk":
+            groups[("dechunk", t[1], t[2], "".join(t[3:]))].append((out, l))
+        elif t[0] == "relay" and t[5] == "eof" and t[1] != "fcgi":
+            key = (t[2], t[4], out)
+            if key not in vcache:
+                v = view(int(t[2]), t[4] == "H", out)
+                if "bad" in v:
+                    vcache[key] = ("bad", v["bad"])
+                else:
+                    f = dict(v["fields"])
+                    for k, vs in v["trailers"].items():      # (trailers may be merged into the head)
+                        f[k] = f.get(k, []) + vs
+                    vcache[key] = (v["cend"], v["status"], tuple(v["interims"]), v["complete"], v["body"],
+                                   tuple(sorted((k, tuple(sorted(x))) for k, x in f.items())))
+            groups[("relay",) + tuple(t[1:6]) + ("".join(t[6:]),)].append((vcache[key], l))
+    for key, lst in groups.items():
+        if len(lst) < 2:
+            continue
+        a = lst[0]
+        for b in lst[1:]:
+            if b[0] != a[0]:
+                what = M_SEGM + ("chunked decoder verdict" if key[0] == "dechunk" else "client-side response")
+                l1, l2 = sorted((a[1], b[1]), key=len)
+                ctx.violation("oracle:%s:%s" % (name, what), what,
+                              {"property": ctx.pid, "kind": "property-oracle", "correspondence": name, "input": l2,
+                               "other_input": l1, "impl_obs": seen[l2][:2000], "other_obs": seen[l1][:2000],
+                               "oracle_verdict": what}, found=True)
+                return 1
+    return 0
+
+
 def run(ctx):
     exe, err = C.build_harness("h_beresp")
     if exe is None:
@@ -1650,13 +1850,19 @@ def run(ctx):
     for name, lines in (("relay(h_beresp)", sorted(ex, key=len) + rl + big), ("backend-dechunk(h_beresp)", gen_dechunk(ctx)),
                         ("fastcgi-records(h_beresp)", gen_fcgi(ctx))):
         nv = len(ctx.violations)
-        nd = ctx.differential(name, [exe], "beresp", lines, oracle, classify)
+        seen = {}
+
+        def oracle_rec(l, out, seen=seen):
+            seen[l] = out
+            return oracle(l, out)
+        nd = ctx.differential(name, [exe], "beresp", lines, oracle_rec, classify)
         if any(v[0].startswith("crash:") for v in ctx.violations[nv:]):
             # after a crash the outputs of the remaining parallel chunks are no longer aligned with their inputs
             # (common.parallel_lines pads only the first crashed chunk): report the crash alone
             ctx.violations[nv:] = [v for v in ctx.violations[nv:] if v[0].startswith("crash:")]
             ctx.notes.append("%s: harness crashed; oracle/correspondence verdicts of this stream are not reported" % name)
             continue
+        segmentation_oracle(ctx, name, seen)
         if nd and ctx.model_ok:
             unexplained_disagreements(ctx, name, exe, lines)
     if ctx.model_ok:
